@@ -105,6 +105,20 @@ func (w *Walker) boolHelper(v ssa.Value, depth int) *inlined {
 		return il
 	}
 	f := call.Common().StaticCallee()
+	// slices.ContainsFunc(xs, func(x) bool {...}): "some element satisfies the predicate" - the function literal is the
+	// helper, applied to the symbolic element xs[*] (one symbolic element = existential, as for range loops)
+	var elemSubst string
+	if f != nil && (FuncPkgPath(f) == "slices" || FuncPkgPath(f) == "golang.org/x/exp/slices") && len(call.Common().Args) == 2 {
+		name := f.Name()
+		if o := f.Origin(); o != nil {
+			name = o.Name()
+		}
+		if mc, isMC := call.Common().Args[1].(*ssa.MakeClosure); isMC && name == "ContainsFunc" {
+			if cf, isF := mc.Fn.(*ssa.Function); isF && len(cf.Blocks) > 0 && len(cf.Params) == 1 {
+				f, elemSubst = cf, Canon(call.Common().Args[0])+"[*]"
+			}
+		}
+	}
 	if f == nil || !InModule(f) || len(f.Blocks) == 0 || f.Signature.Results().Len() != 1 || f == w.Fn {
 		return nil
 	}
@@ -120,14 +134,38 @@ func (w *Walker) boolHelper(v ssa.Value, depth int) *inlined {
 	for i, a := range call.Common().Args {
 		subst[i] = Canon(a)
 	}
+	if elemSubst != "" {
+		subst = map[int]string{0: elemSubst}
+	}
 	for _, a := range sw.CondAtoms() {
-		il.atoms[translateAtom(a, subst)] = a
+		ta := translateAtom(a, subst)
+		if elemSubst != "" {
+			// the function literal's own parameter is printed $$0: it stands for the symbolic element
+			ta = normCommutative(replaceParam(ta, "$$0", elemSubst))
+		}
+		il.atoms[ta] = a
 	}
 	if w.inl == nil {
 		w.inl = map[*ssa.Call]*inlined{}
 	}
 	w.inl[call] = il
 	return il
+}
+
+// replaceParam replaces the parameter token (e.g. "$$0") by repl where it is
+// not followed by another digit.
+func replaceParam(a, tok, repl string) string {
+	var sb []byte
+	for i := 0; i < len(a); {
+		if i+len(tok) <= len(a) && a[i:i+len(tok)] == tok && (i+len(tok) == len(a) || a[i+len(tok)] < '0' || a[i+len(tok)] > '9') && (i == 0 || a[i-1] != '$') {
+			sb = append(sb, repl...)
+			i += len(tok)
+			continue
+		}
+		sb = append(sb, a[i])
+		i++
+	}
+	return string(sb)
 }
 
 // Inlined lists the helper functions whose truth tables were folded into this walker's atoms.
